@@ -121,6 +121,26 @@ def _doc_job(job):
             acc.violation(Viol('filter', sym, case, 'unfiltered export with unselected material removed', detail))
         if S == catref.ALL and out != base:
             acc.violation(Viol('identity', 'include-all-exclude-nothing-is-not-the-identity', case, base, out))
+    # the same include / exclude OBJECT used for several calls (as a program that keeps its selection in a variable does)
+    if part == 1:
+        for inc, exc in ((('CORE', 'BARLINES', 'STRUCTURAL'), ('BARLINES',)), (('NOTE_REST', 'SIGNATURES', 'HEADER'), ('NOTE_REST',)),
+                         (('CORE', 'SIGNATURES', 'COMMENTS'), ('CLEF', 'CORE')), ('BEKERN', ('CORE',))):
+            names = [c.name for c in kp.BEKERN_CATEGORIES] if inc == 'BEKERN' else list(inc)
+            for shape in (set, list):
+                s_inc = shape(TC[x] for x in names)
+                s_exc = shape(TC[x] for x in exc)
+                try:
+                    kp.dumps(doc, encoding=kp.Encoding.eKern, include=s_inc, exclude=s_exc)
+                    o2 = kp.dumps(doc, encoding=kp.Encoding.eKern, include=s_inc)            # same include object, no exclude any more
+                    o3 = kp.dumps(doc, encoding=kp.Encoding.eKern, exclude=s_exc)            # same exclude object alone
+                    acc.count('transitions', 3)
+                except Exception as e:  # noqa
+                    acc.violation(Viol('filter-reused-object', 'raises', {'doc': name, 'text': text, 'include': names, 'exclude': exc, 'seed': seed, 'tier': tier}, None, repr(e)[:100]))
+                    continue
+                case = {'doc': name, 'text': text, 'include': names, 'exclude': list(exc), 'seed': seed, 'tier': tier, 'reused': shape.__name__}
+                for out, S in ((o2, catref.selected(names, None)), (o3, catref.selected(None, exc))):
+                    for sym, detail in compare_export(m, out, 'ekern', None, S)[:1]:
+                        acc.violation(Viol('filter-reused-object', 'result-depends-on-an-earlier-call-with-the-same-object', case, None, detail))
     # identity spellings
     if part == 0:
         for kw in ({'include': set(TC)}, {'include': list(TC)}, {'exclude': []}, {'exclude': set()}, {'include': set(TC), 'exclude': set()}, {'include': None, 'exclude': None}):
@@ -213,6 +233,18 @@ def replay(case):
     # find the document in the family by its text (any tier / recorded seed are tried)
     for tier in (case.get('tier', 'quick'),):
         for name, m in family(tier, case.get('seed', 0)):
+            if m.text() == case['text'] and 'reused' in case:
+                doc, _ = kp.loads(m.text())
+                shape = set if case['reused'] == 'set' else list
+                s_inc = shape(TC[x] for x in inc)
+                s_exc = shape(TC[x] for x in exc)
+                kp.dumps(doc, encoding=kp.Encoding.eKern, include=s_inc, exclude=s_exc)
+                o2 = kp.dumps(doc, encoding=kp.Encoding.eKern, include=s_inc)
+                o3 = kp.dumps(doc, encoding=kp.Encoding.eKern, exclude=s_exc)
+                for out, S in ((o2, catref.selected(inc, None)), (o3, catref.selected(None, exc))):
+                    for sym, detail in compare_export(m, out, 'ekern', None, S)[:1]:
+                        acc.violation(Viol('filter-reused-object', 'result-depends-on-an-earlier-call-with-the-same-object', case, None, detail))
+                return acc.viol
             if m.text() == case['text']:
                 doc, _ = kp.loads(m.text())
                 S = catref.selected(inc, exc)
